@@ -33,10 +33,13 @@ class Window:
         async def wrapped():                            # pylint: disable=C0111
             # put anything to take a slot in the queue
             await self.queue.put(1)
-            job._running = True                         # pylint: disable=w0212
-            value = await job.co_run()
-            # release slot in the queue
-            await self.queue.get()
+            try:
+                job._running = True                     # pylint: disable=w0212
+                value = await job.co_run()
+            finally:
+                # release slot in the queue, also if the job raises
+                # an exception or gets cancelled
+                await self.queue.get()
             # return the right thing
             return value
         return wrapped
